@@ -36,9 +36,14 @@ CLAIMED.update({
             "Non-negativity of pumping power in all four pumping-power functions (both hydraulic models, pumped and "
             "self-flowing enumerated), the reservoir-pressure predictor (start, floored linear decline, monotone, "
             ">= hydrostatic, constant at 100 %) and the injection-pressure predictor are proved for all series "
-            "lengths and inputs satisfying the stated preconditions. Turbulent-friction monotonicity in diameter is "
-            "not decided (listed in the evidence).",
-            TRUSTED + "vapor_pressure_water_kPa is uninterpreted with result > 0; pint conversions are trusted.",
+            "lengths and inputs satisfying the stated preconditions; total pumping power = production + injection in "
+            "WellBores.Calculate. Friction loss vs diameter: self-composition on the real WellPressureDrop - in the "
+            "laminar regime (both runs take the code's own branch Re_avg < 2300) the frictional pressure loss of every "
+            "time step does not increase when only the diameter is enlarged; WellPressureDrop / "
+            "InjectionWellPressureDrop length contracts are verified.",
+            TRUSTED + "The TURBULENT branch (Colebrook iteration: log10, fractional powers) of the diameter clause is not "
+            "decided. vapor_pressure_water_kPa, water density and viscosity are uninterpreted with result > 0; pint "
+            "conversions are trusted.",
             "DESIGN.md section 4 C15"),
 })
 
@@ -239,16 +244,26 @@ NOT_APPLICABLE = {
 
 NOT_YET = "contracts for this property are not built yet in this round; not claimed until its obligations discharge"
 NOT_APPLICABLE.update({
-    "C09": "the report writer is ~600 lines of format strings written to a file inside one function: 'the printed figure "
-           "equals the computed quantity rounded to the displayed precision and carries its unit' is a statement about "
-           "formatted text (string reasoning, undecided in both solvers for this shape, see DESIGN.md section 4 C09); "
-           "what a contract could reach - index bounds and one-row-per-year of the profile loops - was not built, so "
-           "nothing is claimed",
     "C10": "the client parses the report with regular expressions, substring matches and set.pop(): exactness of the "
            "extraction for all reports the simulator can emit is a property of string/regex code over an unbounded "
            "text domain, outside the VC generator's subset and undecided by the installed string solvers; a bounded "
            "round trip over example reports would repeat what the tests sample and is not offered as a stand-in",
 })
+CLAIMED["C09"] = ("other", "structural obligations on the mechanically extracted loops of the real report writer + "
+                  "index-bound VCs discharged by z3; no symbolic execution of the writer",
+                  "Partial - only the statement's LAST clause and read safety. For all 16 loops of Outputs.PrintOutputs "
+                  "(extracted from the real AST on every run; an unrecognised loop is reported, not skipped): the loop "
+                  "runs over the operating years, over construction + operating years exactly when the table shows the "
+                  "construction-padded price / revenue / cash-flow series, or over the additional gradient segments, with "
+                  "step 1; each iteration writes exactly its row; the first formatted value is the year, so rows are in "
+                  "order; and every subscript over the loop variable lies inside its series for ALL lifetimes, time steps "
+                  "per year and construction years (z3, 65 VCs).",
+                  "NOT decided (and not claimed): that a printed figure equals the computed quantity rounded to the "
+                  "displayed precision, that it carries the quantity's unit, and which quantity a column shows - these are "
+                  "statements about formatted text / a correspondence only the writer itself defines. Series lengths are "
+                  "proved postconditions of C02/C04/C05/C15/C16 where those exist and listed as assumptions otherwise. "
+                  "Source shapes outside what the check recognises exit 2 (undecided), not 1.",
+                  "DESIGN.md section 4 C09")
 CLAIMED["C20"] = ("other", TECH + " on the mechanically extracted run-and-exit tail of the CLI module; main() through "
                   "its C08 contract with exit status and 'run completed' as ghost state",
                   "Partial. The statements of src/geophires_x/__main__.py from `rc = ...` to the end are extracted on "
